@@ -124,9 +124,9 @@ Proof.
   change OP_CLOSE with 8. change OP_PING with 9. change OP_PONG with 10.
   destruct ((op =? 1) || (op =? 2) || (op =? 0)) eqn:Ed.
   - assert (is_data op = true) by (unfold is_data; lia).
-    destruct (cont_not_started _ _); [discriminate|]. destruct (negb fin).
+    destruct (cont_not_started _ _); [discriminate|]. destruct (data_in_message _ _); [discriminate|]. destruct (negb fin).
     + intros [= <- <-]. right; left. split; [assumption|reflexivity].
-    + destruct (_ && _); [discriminate|]. destruct (negb (comp =? 0)).
+    + destruct (negb (comp =? 0)).
       * destruct (decomp _ _ _); try discriminate. destruct (inflated_too_big _ _); [discriminate|].
         repeat break_if; intros [= <- <-]; left; reflexivity.
       * repeat break_if; intros [= <- <-]; left; reflexivity.
